@@ -1,10 +1,11 @@
 #!/bin/sh
 # every thorough check once on the unchanged tree, in a scratch Coq tree and evidence directory
+VH="$(cd "$(dirname "$0")/.." && pwd)"   # this copy of /verif (a vp-run snapshot works too)
 CQ=/tmp/thor.$$.coq; EV=/tmp/thor.$$.ev
-cp -a /verif/coq $CQ
+cp -a $VH/coq $CQ
 for p in C01 C02 C03 C04 C05 C06 C07 C08 C09 C10 C11 C12 C13 C14 C15 C16 C17 C18 C19 C20; do
   t0=$(date +%s)
-  out=$(cd /verif && VERIF_COQ=$CQ VERIF_EVIDENCE=$EV ./check $p --tier thorough 2>&1); rc=$?
+  out=$(cd "$VH" && VERIF_COQ=$CQ VERIF_EVIDENCE=$EV ./check $p --tier thorough 2>&1); rc=$?
   echo "$p exit=$rc $(( $(date +%s)-t0 ))s $(echo "$out" | grep -E "VIOLATION|Traceback" | head -3 | tr '\n' ' ')"
   [ $rc -ne 0 ] && { mkdir -p /tmp/thor_keep; cp $EV/replay/${p}_* /tmp/thor_keep/ 2>/dev/null; }
 done
